@@ -22,6 +22,7 @@ use octo_squirrel::manager::shadowsocks::ServerUser;
 use octo_squirrel::manager::shadowsocks::ServerUserManager;
 use octo_squirrel::protocol::address::Address;
 use octo_squirrel::protocol::shadowsocks::Mode;
+use octo_squirrel::protocol::shadowsocks::aead;
 use octo_squirrel::protocol::shadowsocks::aead_2022::password_to_keys;
 use rand::random;
 use tcp::PayloadCodec;
@@ -85,7 +86,11 @@ async fn startup_udp<const N: usize>(config: &ServerConfig<SslConfig>, user_mana
         return Ok(());
     }
     if config.mode.enable_udp() {
-        let (key, identity_keys) = password_to_keys(&config.password).map_err(|e| anyhow!(e))?;
+        let (key, identity_keys) = if config.cipher.is_aead_2022() {
+            password_to_keys(&config.password).map_err(|e| anyhow!(e))?
+        } else {
+            (aead::openssl_bytes_to_key(config.password.as_bytes()), Vec::with_capacity(0))
+        };
         let context = Context::new(Mode::Server, Some(user_manager.clone()), &key, &identity_keys);
         let codec = udp::new_codec::<N>(config, context)?;
         let inbound = UdpSocket::bind(format!("{}:{}", config.host, config.port)).await?;
